@@ -104,7 +104,7 @@ def match_known(pid, key, known):
 
 
 def write_replay(pid, key, artefact):
-    d = os.path.join(HERE, 'replays', pid)
+    d = os.path.join(os.environ.get('VERIF_REPLAY_DIR') or os.path.join(HERE, 'replays'), pid)
     os.makedirs(d, exist_ok=True)
     body = {'property': pid, 'key': key, 'artefact': artefact}
     text = json.dumps(body, indent=1, sort_keys=True, default=str)
@@ -143,7 +143,7 @@ def main(argv=None):
     os.environ.setdefault('PYTHONHASHSEED', '0')
     t0 = time.time()
     ctx = Ctx(pid, args.tier, args.seed)
-    evidence_path = os.path.join(HERE, 'evidence', pid + '.json')
+    evidence_path = os.path.join(os.environ.get('VERIF_EVIDENCE_DIR') or os.path.join(HERE, 'evidence'), pid + '.json')
     os.makedirs(os.path.dirname(evidence_path), exist_ok=True)
     known = load_known()
     try:
@@ -178,7 +178,7 @@ def main(argv=None):
         artefact = ctx.violations[key][0]
         path = write_replay(pid, key, artefact)
         status = None
-        if not args.no_replay and hasattr(mod, 'replay'):
+        if not args.no_replay and hasattr(mod, 'replay') and reported + unreproduced < 10:
             try:
                 status, out = replay_in_fresh_process(path)
             except subprocess.TimeoutExpired:
